@@ -76,25 +76,27 @@ where
             (i + 1, u32::from(first))
         } else {
             // 2 bytes ~
-            let (i, rest) = unsafe { self.inner.next().unwrap_unchecked() };
+            // The bytes are not trusted to form a correct UTF-8 string: `AsRef::as_ref()` of the
+            // haystack is called for every byte and may return a different string each time.
+            let (i, rest) = self.inner.next()?;
             let c = u32::from(rest & 0x3f);
             if first < 0xe0 {
                 (i + 1, (u32::from(first & 0x1f) << 6) | c)
             } else {
                 // 3 bytes ~
-                let (i, rest) = unsafe { self.inner.next().unwrap_unchecked() };
+                let (i, rest) = self.inner.next()?;
                 let c = (c << 6) | u32::from(rest & 0x3f);
                 if first < 0xf0 {
                     (i + 1, (u32::from(first & 0x0f) << 12) | c)
                 } else {
                     // 4 bytes
-                    let (i, rest) = unsafe { self.inner.next().unwrap_unchecked() };
+                    let (i, rest) = self.inner.next()?;
                     let c = (c << 6) | u32::from(rest & 0x3f);
                     (i + 1, (u32::from(first & 0x07) << 18) | c)
                 }
             }
         };
-        Some((end_offset, unsafe { char::from_u32_unchecked(c) }))
+        Some((end_offset, char::from_u32(c)?))
     }
 }
 
@@ -271,7 +273,8 @@ where
         let mut last_output_pos: Option<NonZeroU32> = None;
 
         let mut skips = 0;
-        for c in unsafe { self.haystack.as_ref().get_unchecked(self.pos..) }.chars() {
+        // self.pos comes from an earlier call of as_ref(), which may have returned another string.
+        for c in self.haystack.as_ref().get(self.pos..)?.chars() {
             skips += c.len_utf8();
 
             // state_id is always smaller than self.pma.states.len() because
